@@ -93,6 +93,8 @@ def spec_trim(rows, n, tts, trim, start, stt):
             if len(src) != npts:
                 return None                        # the code's row assignment would not fit: outside the helper's domain
         else:
+            if npts - sis[i] <= 0:
+                return None                        # the front padding alone exceeds the output length: outside the helper's stated domain
             src = row[: npts - sis[i]]
             for k, v in enumerate(src):
                 new[sis[i] + k] = v
